@@ -287,3 +287,6 @@ func TestReplayDecode(t *testing.T) { stats.Replay(t, "TestDecode", checkDecode)
 
 // TestRegressDecode runs the committed regression inputs (replays/C10/regress-*.json).
 func TestRegressDecode(t *testing.T) { stats.Regress(t, "TestDecode", checkDecode) }
+
+func hexEncode(b []byte) string          { return hex.EncodeToString(b) }
+func hexDecode(s string) ([]byte, error) { return hex.DecodeString(s) }
